@@ -653,6 +653,14 @@ pub(crate) async fn fashare(
     if dm_k.iter().flatten().any(|dm| dm.len() != dm_len) {
         return Err(Error::InvalidLength);
     }
+    // every decommitment must open the commitment cm that was broadcast before it
+    for k in (0..n).filter(|k| *k != i) {
+        for r in 0..RHO {
+            if !open_commitment(&c0_c1_cm_k[k][r].2, &dm_k[k][r]) {
+                return Err(Error::CommitmentCouldNotBeOpened);
+            }
+        }
+    }
     dm_k[i] = dmvec;
 
     // 3 c) Compute bi to determine di_bi and send to all parties.
